@@ -1290,6 +1290,7 @@ def generic_rules(prop, index, rep):
     rep.rule(rid5, "protocol contracts in the property's modules and the error classes: in-place operator methods return an object on every normal path; format templates are constants (data is an argument, never concatenated into the template)")
     with rep.section(rid5):
         npc = protocol_rule(index, rep, rid5, mods + ["dendropy.utility.error"])
+        npc += resized_while_iterated_rule(index, rep, rid5, mods)
         rep.ob(rid5, "src/dendropy", "%d in-place operator methods and format calls examined" % npc, True, nontrivial=npc > 0)
     rid6 = "R%s.D" % prop[1:]
     rep.rule(rid6, "literal dispatch chains in the property's modules have no dead branch: no branch of an if/elif chain over string keywords tests only keywords that an earlier branch already accepts")
@@ -1320,6 +1321,55 @@ def generic_rules(prop, index, rep):
         ng += found_or_empty_rule(index, rep, rid2, mods)
         ng += method_tested_rule(index, rep, rid2, mods)
         rep.ob(rid2, "src/dendropy", "%d nested loops and %d None-guards in the property's modules examined" % (nl, ng), True, nontrivial=nl + ng > 0)
+
+
+def resized_while_iterated_rule(index, rep, rid, modules):
+    """the iteration protocol: a dict / set / list is not resized by the body of a for-loop that iterates it directly
+    (or through .keys() / .items() / .values()): no del / pop / remove / clear / add / append on it, and no store under a
+    key that a `not in` test on the same container has just found missing (a definite insertion)."""
+    n = 0
+    for m in modules:
+        for fi in index.functions_in_module(m):
+            for f in walk_no_nested(fi.node):
+                if not isinstance(f, ast.For):
+                    continue
+                it = f.iter
+                if isinstance(it, ast.Call) and isinstance(it.func, ast.Attribute) and it.func.attr in ("keys", "items", "values") and not it.args:
+                    it = it.func.value
+                if not isinstance(it, (ast.Name, ast.Attribute)):
+                    continue
+                txt = norm(it)
+                n += 1
+                bad = None
+                for s_ in f.body:
+                    for x in walk_no_nested(s_):
+                        if isinstance(x, ast.Delete):
+                            for t in x.targets:
+                                if isinstance(t, ast.Subscript) and norm(t.value) == txt:
+                                    bad = bad or (x, "deletes a key of it")
+                        elif isinstance(x, ast.Call) and isinstance(x.func, ast.Attribute) and norm(x.func.value) == txt \
+                                and x.func.attr in ("pop", "remove", "clear", "popitem", "__delitem__", "discard", "insert", "append", "add", "extend", "update", "setdefault"):
+                            bad = bad or (x, "calls .%s() on it" % x.func.attr)
+                        elif isinstance(x, ast.If):
+                            t = x.test
+                            if isinstance(t, ast.Compare) and len(t.ops) == 1 and isinstance(t.ops[0], ast.NotIn) and norm(t.comparators[0]) == txt:
+                                k = norm(t.left)
+                                for y in x.body:
+                                    for z in walk_no_nested(y):
+                                        if isinstance(z, ast.Assign) and any(isinstance(tg, ast.Subscript) and norm(tg.value) == txt and norm(tg.slice) == k for tg in z.targets):
+                                            bad = bad or (z, "inserts the key `%s` it has just found missing" % k)
+                # a loop that leaves right after the change (break / return) is the accepted find-and-remove idiom
+                if bad is not None:
+                    blk = [b for b in ast.walk(f) if hasattr(b, "body") and isinstance(getattr(b, "body"), list) and any(st is bad[0] or (isinstance(st, ast.Expr) and st.value is bad[0]) for st in b.body)]
+                    if blk:
+                        body = blk[0].body
+                        i = [j for j, st in enumerate(body) if st is bad[0] or (isinstance(st, ast.Expr) and st.value is bad[0])][0]
+                        if any(isinstance(st, (ast.Break, ast.Return)) for st in body[i + 1:]):
+                            bad = None
+                if bad is not None:
+                    rep.check(False, rid, fi.qualname, "`%s` resized while it is iterated" % txt, fn_where(fi, bad[0]), "",
+                              "%s iterates `%s` and %s inside the loop (`%s`): a dict or set raises RuntimeError('changed size during iteration') as soon as that happens, a list skips or repeats members - iterate over a copy (list(...)) instead" % (fi.qualname, txt, bad[1], (norm_stmt(bad[0]) if isinstance(bad[0], ast.stmt) else norm(bad[0]))[:60]))
+    return n
 
 
 _PLAIN_METHODS = {}
